@@ -298,7 +298,7 @@ def run_leg(env, leg, pid, tier, seed, replay):
     if name == "memcheck":
         n = MEMCHECK_CASES[tier]
         extra = ["--threads", "1", "--max-cases", str(n)]
-        prefix = ["valgrind", "--quiet", "--error-exitcode=97", "--leak-check=no", "--track-origins=no"]
+        prefix = ["valgrind", "--quiet", "--error-exitcode=97", "--leak-check=no", "--track-origins=yes", "--fullpath-after=", "--num-callers=40"]
         timeout = 900 if tier == "quick" else 3600
         call = lambda: run_hsv(env, name, binp, pid, tier, seed, replay, extra, of(), timeout, prefix=prefix)
         rc, out, _ = call()
